@@ -295,7 +295,9 @@ func c10Errors() []c10Err {
 	wrap("syscall.EACCES", syscall.EACCES, rfPermDenied)
 	wrap("syscall.EPERM", syscall.EPERM, rfPermDenied)
 	wrap("io.EOF", io.EOF, rfEOF) // bare and inside os's wrappers (a handler reporting the end of a file as a *PathError)
-	for i, e := range []error{errors.New("plain failure text 4711"), c10Custom{"custom error type #42"}, syscall.ENOTDIR, syscall.EEXIST, &os.PathError{Op: "x", Path: "/q", Err: syscall.EISDIR}, fmt.Errorf("wrapped: %w", errors.New("inner cause 9"))} {
+	for i, e := range []error{errors.New("plain failure text 4711"), c10Custom{"custom error type #42"}, syscall.ENOTDIR, syscall.EEXIST, &os.PathError{Op: "x", Path: "/q", Err: syscall.EISDIR}, fmt.Errorf("wrapped: %w", errors.New("inner cause 9")),
+		// errors that merely resemble the standard ones: an interrupted read is a failure, not the end of the file
+		io.ErrUnexpectedEOF, fmt.Errorf("backend dropped: %w", io.ErrUnexpectedEOF), &os.PathError{Op: "read", Path: "/q", Err: io.ErrUnexpectedEOF}, io.ErrClosedPipe, io.ErrShortWrite, os.ErrClosed, os.ErrExist, os.ErrInvalid, syscall.EIO, fmt.Errorf("offline: %w", syscall.EIO)} {
 		out = append(out, c10Err{fmt.Sprintf("other-%d", i), e, rfFailure, e.Error()})
 	}
 	return out
